@@ -54,16 +54,23 @@ def kernpy_src() -> str:
     return os.path.abspath(os.environ.get('KERNPY_SRC', '/repo'))
 
 
-def bootstrap(hashseed: str | None = None):
-    """Pin PYTHONHASHSEED (re-exec once) and make ``import kernpy`` resolve under KERNPY_SRC."""
+def _py_flags(optimize=None):
+    o = sys.flags.optimize if optimize is None else optimize
+    return ['-' + 'O' * o] if o else []
+
+
+def bootstrap(hashseed: str | None = None, optimize: int | None = None):
+    """Pin PYTHONHASHSEED and the interpreter's optimisation level (re-exec once) and make ``import kernpy`` resolve under KERNPY_SRC."""
     want = hashseed if hashseed is not None else str(seeds.verif_seed() % 4294967296)
-    if os.environ.get('PYTHONHASHSEED') != want and os.environ.get('SIMKIT_NO_REEXEC') != '1':
+    want_opt = sys.flags.optimize if optimize is None else optimize
+    if (os.environ.get('PYTHONHASHSEED') != want and os.environ.get('SIMKIT_NO_REEXEC') != '1') or want_opt != sys.flags.optimize:
         env = dict(os.environ)
         env['PYTHONHASHSEED'] = want
         env['SIMKIT_NO_REEXEC'] = '1'
+        env['PYTHONDONTWRITEBYTECODE'] = '1'
         sys.stdout.flush()
         sys.stderr.flush()
-        os.execve(sys.executable, [sys.executable] + sys.argv, env)
+        os.execve(sys.executable, [sys.executable] + _py_flags(want_opt) + sys.argv, env)
     src = kernpy_src()
     if sys.path[0] != src:
         sys.path.insert(0, src)
@@ -250,9 +257,27 @@ def log(*a):
     print(*a, file=sys.stderr, flush=True)
 
 
+def run_optimised_leg(check, tier, seed):
+    """Interpreter-environment leg: a small batch of the same check under ``python -O`` (asserts stripped, __debug__ False).
+    Returns (rc, violation_line or None, runs)."""
+    import subprocess
+    n = check.TIERS[tier].get('opt_leg_runs', 0)
+    if not n or sys.flags.optimize:
+        return 0, None, 0
+    env = dict(os.environ, SIMKIT_NO_REEXEC='1', PYTHONDONTWRITEBYTECODE='1', VERIF_SEED=str(seed))
+    r = subprocess.run([sys.executable, '-O', os.path.join(VERIF_DIR, 'check'), check.PROPERTY, '--tier', tier, '--runs', str(n), '--no-evidence', '--leg'],
+                       env=env, cwd=VERIF_DIR, capture_output=True, text=True, timeout=1800)
+    line = next((l for l in r.stdout.splitlines() if l.startswith('VIOLATION ')), None)
+    if r.returncode not in (0, 1):
+        log('HARNESS-ERROR in the python -O leg: ' + r.stderr[-600:])
+    elif r.returncode == 1:
+        log('python -O leg: ' + '\n'.join(l for l in r.stderr.splitlines() if 'violation' in l or 'expected' in l or 'actual' in l)[:900])
+    return r.returncode, line, n
+
+
 def run_batch(check, tier: str, seed: int, runs: int | None = None, start: int = 0, workers: int | None = None,
               wall_cap_s: float | None = None, chunk: int | None = None, write_evidence: bool = True,
-              quiet: bool = False):
+              quiet: bool = False, leg: bool = False):
     global _CHECK, _KNOWN
     t0 = time.time()
     cfg = check.TIERS[tier]
@@ -266,7 +291,8 @@ def run_batch(check, tier: str, seed: int, runs: int | None = None, start: int =
         log(f'VERIF_SEED={seed} property={check.PROPERTY} tier={tier} runs={runs} start={start} workers={workers} '
             f'hashseed={os.environ.get("PYTHONHASHSEED")} kernpy={kernpy_src()}')
 
-    canaries = run_canaries(check, known) if write_evidence else {}
+    canaries = run_canaries(check, known) if write_evidence and not leg else {}
+    opt_leg = run_optimised_leg(check, tier, seed) if not leg and runs is None else (0, None, 0)
     jobs = [(seed, tier, list(range(s, min(s + chunk, start + runs)))) for s in range(start, start + runs, chunk)]
     results = []
     harness_errors = []
@@ -310,7 +336,7 @@ def run_batch(check, tier: str, seed: int, runs: int | None = None, start: int =
             harness_errors.extend(r['harness_errors'])
     good = [r for r in results if 'fatal' not in r]
     wall = time.time() - t0
-    return _finish(check, tier, seed, start, runs, good, harness_errors, truncated, wall, known, workers, write_evidence, quiet, canaries)
+    return _finish(check, tier, seed, start, runs, good, harness_errors, truncated, wall, known, workers, write_evidence, quiet, canaries, opt_leg)
 
 
 def run_canaries(check, known):
@@ -332,7 +358,8 @@ def run_canaries(check, known):
     return out
 
 
-def _finish(check, tier, seed, start, runs, good, harness_errors, truncated, wall, known, workers, write_evidence, quiet, canaries=None):
+def _finish(check, tier, seed, start, runs, good, harness_errors, truncated, wall, known, workers, write_evidence, quiet, canaries=None,
+            opt_leg=(0, None, 0)):
     canaries = canaries or {}
     prop = check.PROPERTY
     faults = collections.Counter()
@@ -393,6 +420,13 @@ def _finish(check, tier, seed, start, runs, good, harness_errors, truncated, wal
         log(f'  actual:   {json.dumps(v.get("actual"), ensure_ascii=False, default=str)[:600]}')
         log(f'  unlisted violations in batch: {unlisted_n} over signatures {dict(unlisted_sigs.most_common(8))}')
 
+    if opt_leg[0] == 1 and opt_leg[1] and rc == 0:
+        rc = 1
+        out_lines.append(opt_leg[1])
+        replay_path = opt_leg[1].split('replay=', 1)[1]
+        _REPLAY_ACCEPTED[replay_path] = True
+    elif opt_leg[0] not in (0, 1):
+        harness_errors.append('the python -O leg failed')
     distinct = len(shapes)
     zero_probes = [p for p in getattr(check, 'PROBES', []) if probes.get(p, 0) == 0]
     if zero_probes and not quiet:
@@ -432,6 +466,7 @@ def _finish(check, tier, seed, start, runs, good, harness_errors, truncated, wal
             'configs': dict(configs),
             'known_findings_hit': dict(known_hits),
             'known_findings_examples': canaries,
+            'optimised_interpreter_leg': {'runs': opt_leg[2], 'exit': opt_leg[0], 'note': 'the same check under python -O (asserts stripped), a small batch'},
             'unlisted_violations': unlisted_n,
             'unlisted_signatures': dict(unlisted_sigs.most_common(20)),
             'components': check.COMPONENTS,
@@ -526,7 +561,7 @@ class ReplayServer:
         import subprocess
         env = dict(os.environ)
         env['SIMKIT_NO_REEXEC'] = '1'         # PYTHONHASHSEED is already pinned in this process; inherit it
-        self.p = subprocess.Popen([sys.executable, os.path.join(VERIF_DIR, 'check'), prop, '--serve'], stdin=subprocess.PIPE,
+        self.p = subprocess.Popen([sys.executable] + _py_flags() + [os.path.join(VERIF_DIR, 'check'), prop, '--serve'], stdin=subprocess.PIPE,
                                   stdout=subprocess.PIPE, env=env, cwd=VERIF_DIR, text=True)
 
     def eval(self, preceding, plan, signature):
@@ -658,6 +693,7 @@ def _minimise_and_write(check, seed, tier, run_i, v, plan, known, preceding, rep
         'run': run_i,
         'tier': tier,
         'hashseed': os.environ.get('PYTHONHASHSEED'),
+        'python_optimize': sys.flags.optimize,
         'kernpy_src': kernpy_src(),
         'class': final_v['class'],
         'signature': sig,
@@ -722,13 +758,17 @@ def main(load_check, argv=None):
     ap.add_argument('--no-evidence', action='store_true')
     ap.add_argument('--digest-only', action='store_true', help='print the batch digest on stdout (self-tests)')
     ap.add_argument('--serve', action='store_true', help='internal: evaluate plans read from stdin (used by the minimiser)')
+    ap.add_argument('--leg', action='store_true', help='internal: this batch is a leg of another batch (no canaries, no further legs)')
     args = ap.parse_args(argv)
     hashseed = None
+    optimize = None
     if args.replay:
         with open(args.replay, encoding='utf-8') as f:
-            hashseed = json.load(f).get('hashseed')
+            rf = json.load(f)
+        hashseed = rf.get('hashseed')
+        optimize = rf.get('python_optimize', 0)
     try:
-        bootstrap(hashseed)
+        bootstrap(hashseed, optimize)
         check = load_check()
         if args.replay:
             return replay(check, args.replay)
@@ -737,7 +777,7 @@ def main(load_check, argv=None):
         rc, ev, _ = run_batch(check, args.tier, seeds.verif_seed(), runs=args.runs, start=args.start,
                               workers=args.workers, wall_cap_s=args.wall_cap if not args.digest_only else 1e9,   # a digest must never be truncated
                               write_evidence=not args.no_evidence and not args.digest_only,
-                              quiet=args.digest_only)
+                              quiet=args.digest_only, leg=args.leg or args.digest_only)
         if args.digest_only:
             print(ev['coverage']['batch_digest'])
             print('hs:' + ev['coverage']['batch_digest_hash_insensitive'])
